@@ -1,4 +1,5 @@
 import AtsimModel.Model.PairTables
+import AtsimModel.Gen.Logic
 import AtsimModel.Model.Eam
 import Mathlib.Analysis.SpecialFunctions.Sqrt
 import Mathlib.Analysis.SpecialFunctions.Pow.Real
@@ -171,4 +172,5 @@ theorem C19_kernel_funcfl (dr e sep : Rat) (nr : Nat) (el : El) (nrho : Nat) (dr
     kernel_close
   · kernel_unfold [k_funcfl_rphi, k_funcfl_charge]
     kernel_close
+
 end Atsim.C19
